@@ -474,3 +474,45 @@ Proof.
     { intros sh Hin. apply (Hn sh). right. exact Hin. }
     split; [congruence|exact L2].
 Qed.
+
+(* ------------------------------------------------------------------ *)
+(* C06 at the level of the abstract machine: a by-key acquisition without limit touches the plain map + locked set
+   only in the step that announces its guard.  Every other step it makes -- look-up of an existing entry, a failed
+   try, queueing, the clean-up, being cancelled, the clean-up after the cancellation -- leaves values, guards and guard
+   names as they are; a call that is cancelled (or fails) never makes the announcing step, so it is invisible there. *)
+
+Definition by_key_pc (p : pc) : bool :=
+  match p with
+  | PEnter _ _ None | PKeyTry _ _ | PKeyWait _ _ | PQueued _ _ | PCleanup _ _ | PCancel _ => true
+  | _ => false
+  end.
+
+Definition own_label (a : aid) (l : label) : Prop :=
+  match l with LResume a' _ | LCancel a' => a' = a | _ => False end.
+
+Theorem lock_call_invisible_until_it_gets_its_guard c s a p l s' o :
+  aget a (s_ops s) = Some p -> by_key_pc p = true -> own_label a l -> step c s l = ROk s' o ->
+  (forall g k v, o <> OGuard g k v) ->
+  s_guards s' = s_guards s /\ s_gid s' = s_gid s /\ (forall k, vof s' k = vof s k).
+Proof.
+  intros Ha Hp Hl H Hno.
+  assert (Hv : forall k, vof s' k = vof s k).
+  { apply (step_values_unchanged c s l s' o H). destruct l; cbn in Hl; try contradiction; reflexivity. }
+  split; [|split; [|exact Hv]]; destruct l as [| a' ord | | | a' | | | |]; cbn in Hl; try contradiction; subst a'; cbn [step] in H.
+  all: try (unfold do_resume in H; rewrite Ha in H).
+  all: try (unfold do_cancel in H; rewrite Ha in H).
+  all: destruct p as [sh k lim| | sh k | sh k | sh k | sh k | k | | | | | | | ]; try discriminate Hp.
+  all: try (destruct lim; [discriminate Hp|]).
+  all: try (apply cs_ok in H).
+  all: try (unfold do_enter, do_lookup in H; destruct (aget k (s_ents s)) as [e|];
+            [inv H; reflexivity | cbn [new_guard] in H; inv H; exfalso; eapply Hno; reflexivity]).
+  all: try (unfold do_key_try in H; destruct (aget k (s_ents s)) as [e|]; [|discriminate];
+            destruct (e_owner e); [inv H; reflexivity | cbn [new_guard] in H; inv H; exfalso; eapply Hno; reflexivity]).
+  all: try (unfold do_key_wait in H; destruct (aget k (s_ents s)) as [e|]; [|discriminate];
+            destruct (e_owner e); [inv H; reflexivity | cbn [new_guard] in H; inv H; exfalso; eapply Hno; reflexivity]).
+  all: try (unfold do_queued in H; destruct (aget k (s_ents s)) as [e|]; [|discriminate];
+            destruct (own_is_waiter _ a); [cbn [new_guard] in H; inv H; exfalso; eapply Hno; reflexivity | discriminate]).
+  all: try (unfold do_cleanup in H; destruct (cleanup_ents (s_ents s) k) as [[ents|]|]; inv H; reflexivity).
+  all: try (destruct (cancel_ents c (s_ents s) a k) as [[ents|]|]; inv H; reflexivity).
+  all: try (destruct (sh_is_async sh); inv H; reflexivity).
+Qed.
